@@ -168,7 +168,7 @@ impl Part for C03 {
                 let (ss_ref, enc_ref) = match kem.encap(&k.pk_r, if *auth { Some(&k.sk_s) } else { None }, &sk_e) {
                     Some(x) => x,
                     None => {
-                        out.fail("R1 encap failed on valid keys (reference bug)");
+                        out.fail_machinery("R1 encap failed on valid keys (reference bug)");
                         return out;
                     }
                 };
